@@ -15,6 +15,15 @@ CLAIMS = {
          "Coq theorems over an operational model of mypy's parallel scheduler (coordinator ready / not_ready_count / queue / free-workers bookkeeping; worker interface->commit->reply->implementation->commit->reply; shared store), for every DAG, every N and every schedule: a completed parallel run leaves exactly the sequential interfaces and diagnostics (also as the cache map); SCCs are submitted only when their deps are done; workers only read committed (= sequential) interfaces; every SCC is processed once; no deadlock; every run has at most 8*|SCCs| events. The model is tied to /repo by trace validation of every parallel run's coordinator/worker event log against the model's step function, plus a -n N vs sequential output and cache-map oracle under seeded schedule perturbation",
          "Coq 8.16.1, no axioms; analysis abstract (Section functions of sources and committed interfaces of transitive deps, monitored by the S oracle); batching policy abstracted to any non-empty subset of the queue (theorems hold for all); blockers and worker crashes not modelled; instrumentation external (tools/shim/c07 sitecustomize, PYTHON_MYPY_VERIF=1), it raises WORKER_START_TIMEOUT",
          "global-invariant proof over an event-step model + trace validation against the real scheduler + differential oracle", "6/C07"),
+
+ "C15": ("proof",
+         "Coq theorems for ALL integer operands (every short/long boundary): each tagged-int primitive of CPy.h/int_ops.c (add, subtract, multiply, floor-divide, remainder, negate, invert, and/or/xor, lshift, rshift, all comparisons incl. the lowering) returns the canonical tagged representation of Python's result or raises the same exception; int->i64/i32/i16/u8 conversions reject exactly the out-of-range values; fixed-width + - * // % and in-range shifts agree with Python when the exact result fits; u8 wraps mod 256; native shifts with out-of-range counts are REFUTED (witness replayed). The hand model is tied on every run to a C extension compiled from /repo/mypyc/lib-rt exposing each primitive on raw tagged words and to a freshly mypyc-compiled module (451 one-operation functions, opt 0 and 3), compared three ways with CPython",
+         "Coq 8.16.1, no axioms; hand model of the C code (no verified C semantics: correspondence on boundary^2 + random operands is the tie); floats (true division, int<->float, float ops) have no model: compared by float.hex() compiled vs lib-rt primitive vs CPython only; 4 known findings (native shift count >= width / negative, int true division double rounding, int-float comparison)",
+         "Coq proof (lia + euclidean division, bit lemmas) over hand model + correspondence against freshly compiled C and mypyc code + differential search vs CPython", "6/C15"),
+ "C03": ("proof",
+         "Coq theorems over a model of mypy/server/update.py: find_targets_recursive returns exactly the targets reachable through the dependency map (any map); propagate_changes_using_dependencies reaches a consistent state; update of a changed/added/deleted module equals a full check and re-establishes the invariant, lifted by induction over ALL finite edit histories (stale_errors_removed, no_error_missed); the file-system watcher reports exactly the changed paths under the mtime discipline. deps.py / astdiff completeness are explicit contracts, monitored on the implementation (a target whose fresh result changed must have been reprocessed). Tied by replaying every real propagate call (observed deps map and answers) on the Coq loop, and by comparing the in-process daemon with a fresh non-incremental build after every step of generated and test-suite edit histories (one scenario per dependency kind of deps.py)",
+         "Coq 8.16.1, no axioms; deps_complete / diff_complete / check_module_consistent are contracts (monitored, not proved); theorem conditional on the update returning (MAX_ITER not hit, no blocker); 29 known divergences of the unchanged daemon from a fresh run are listed in known_findings.json (status mismatches, lost used-before-def/has-type, note formatting, order within file, three daemon crashes, one missed propagation)",
+         "Coq invariant/worklist proofs + vm_compute trace validation of real update.py runs + differential oracle with shrinking", "6/C03"),
 }
 NOT_YET = "model and theorems for this property are not built yet in this round (see DESIGN.md section 6 for the plan); not claimed until the Coq development and its tie exist"
 
